@@ -1646,3 +1646,146 @@ Section LaggedForce.
     intros. rewrite lagged_force_rule. destruct (0 <? rel)%nat, (rel - 1 <=? rel')%nat; reflexivity.
   Qed.
 End LaggedForce.
+
+(* =================================================================================================
+   M. running average across a restart: the window is part of the state
+   ================================================================================================= *)
+Section RunaveRestart.
+  Context {T : Type} (O : NumOps T).
+  Variables (L s it0 : nat).
+
+  (* the state left by a job *)
+  Fixpoint runave_final (st : rstate) (prev : option nat) (h : list (nat * T)) : rstate :=
+    match h with
+    | [] => st
+    | (t, x) :: r => runave_final (fst (runave_step O L s it0 st prev t x)) (Some t) r
+    end.
+  Definition prev_after (prev : option nat) (h : list (nat * T)) : option nat :=
+    match rev h with [] => prev | (t, _) :: _ => Some t end.
+
+  Lemma runave_run_app : forall h1 h2 st prev,
+    runave_run O L s it0 st prev (h1 ++ h2) =
+    runave_run O L s it0 st prev h1 ++ runave_run O L s it0 (runave_final st prev h1) (prev_after prev h1) h2.
+  Proof.
+    induction h1 as [|[t x] h1 IH]; intros h2 st prev; [reflexivity|].
+    cbn [app runave_run runave_final]. destruct (runave_step O L s it0 st prev t x) as [s1 o] eqn:E. cbn [fst].
+    rewrite IH, <- app_assoc. f_equal. f_equal. f_equal.
+    unfold prev_after. cbn [rev]. destruct (rev h1) as [|[t' x'] r] eqn:Er; [reflexivity|]. cbn [app]. reflexivity.
+  Qed.
+
+  Lemma hist_from_app {A} : forall (l1 l2 : list A) a, hist_from a (l1 ++ l2) = hist_from a l1 ++ hist_from (a + length l1) l2.
+  Proof.
+    induction l1 as [|x l1 IH]; intros l2 a; cbn [app hist_from length]; [rewrite Nat.add_0_r; reflexivity|].
+    rewrite IH. f_equal. f_equal. f_equal. lia.
+  Qed.
+
+  Lemma prev_after_hist_from {A} : forall (l : list A) a prev, l <> [] ->
+    match rev (hist_from a l) with [] => prev | (t, _) :: _ => Some t end = Some (a + length l - 1)%nat.
+  Proof.
+    intros l. induction l as [|x l IH]; intros a prev Hne; [congruence|].
+    destruct l as [|y l].
+    - cbn [hist_from rev app length]. f_equal. lia.
+    - specialize (IH (S a) prev ltac:(discriminate)). cbn [hist_from rev] in *.
+      destruct (rev (hist_from (S (S a)) l) ++ [(S a, y)]) as [|[t z] r] eqn:E.
+      + destruct (rev (hist_from (S (S a)) l)); discriminate.
+      + cbn [app]. rewrite IH. cbn [length]. f_equal. lia.
+  Qed.
+End RunaveRestart.
+
+Section RunaveRestartShift.
+  Context {T : Type} (O : NumOps T).
+  Variables (L s it0 S : nat).
+  Hypothesis Hs : (1 <= s)%nat.
+  Hypothesis HS : (S mod s = 0)%nat.
+
+  (* a job that resumes at step S counts its relative steps from S: with S on the stride grid its stride test, its
+     repeated-step guard and the absolute step it prints are those of the uninterrupted job *)
+  Lemma runave_step_shift : forall st p a x,
+    runave_step O L s (it0 + S) st (Some p) a x = runave_step O L s it0 st (Some (p + S)%nat) (a + S)%nat x.
+  Proof.
+    intros st p a x. unfold runave_step.
+    assert (Hm : ((a + S) mod s = a mod s)%nat).
+    { apply Nat.div_exact in HS; [|lia]. rewrite HS, Nat.mul_comm, Nat.mod_add by lia. reflexivity. }
+    rewrite Hm. cbn [after_prev].
+    assert (Hl : (p + S <? a + S)%nat = (p <? a)%nat).
+    { destruct (p <? a)%nat eqn:E; [apply Nat.ltb_lt in E; apply Nat.ltb_lt; lia|apply Nat.ltb_ge in E; apply Nat.ltb_ge; lia]. }
+    rewrite Hl. replace (it0 + S + a)%nat with (it0 + (a + S))%nat by lia. reflexivity.
+  Qed.
+
+  Lemma runave_run_shift : forall l st p a,
+    runave_run O L s (it0 + S) st (Some p) (hist_from a l) =
+    runave_run O L s it0 st (Some (p + S)%nat) (hist_from (a + S) l).
+  Proof.
+    induction l as [|x l IH]; intros st p a; [reflexivity|].
+    cbn [hist_from runave_run]. rewrite runave_step_shift.
+    destruct (runave_step O L s it0 st (Some (p + S)%nat) (a + S)%nat x) as [s1 o]. f_equal.
+    change (Datatypes.S (a + S)) with (Datatypes.S a + S)%nat.
+    replace (Some (a + S)%nat) with (Some (a + S)%nat) by reflexivity.
+    specialize (IH s1 a (Datatypes.S a)). 
+    (* the previous step of the resumed job is a, that of the uninterrupted one a + S *)
+    clear IH. revert s1. generalize (Datatypes.S a) as b. intros b s1.
+    assert (G : forall l' st' q b', runave_run O L s (it0 + S) st' (Some q) (hist_from b' l') =
+                                    runave_run O L s it0 st' (Some (q + S)%nat) (hist_from (b' + S) l')).
+    { induction l' as [|y l' IH']; intros st' q b'; [reflexivity|].
+      cbn [hist_from runave_run]. rewrite runave_step_shift.
+      destruct (runave_step O L s it0 st' (Some (q + S)%nat) (b' + S)%nat y) as [s2 o2]. f_equal.
+      change (Datatypes.S (b' + S)) with (Datatypes.S b' + S)%nat. apply IH'. }
+    apply G.
+  Qed.
+End RunaveRestartShift.
+
+(* a run of relative steps 0..n-1 interrupted after step S (state written there, S on the stride grid, S >= 1) and
+   resumed by a new job from that state (which computes step S again without effect, then counts its relative steps
+   1, 2, .. from S) writes, in its two files together, exactly the lines of the uninterrupted run *)
+Lemma runave_resumed_is_uninterrupted : forall (T : Type) (O : NumOps T) (L s it0 S : nat) (xs : list T),
+  (1 <= s)%nat -> (S mod s = 0)%nat -> (S < length xs)%nat ->
+  let h1 := hist (firstn (Datatypes.S S) xs) in
+  let st1 := runave_final O L s it0 (r0 (T:=T)) None h1 in
+  runave_run O L s it0 (r0 (T:=T)) None h1 ++
+  runave_run O L s (it0 + S) st1 (Some 0%nat) (hist_from 1 (skipn (Datatypes.S S) xs)) =
+  runave_run O L s it0 (r0 (T:=T)) None (hist xs).
+Proof.
+  intros T O L s it0 S xs Hs HS Hlen h1 st1.
+  assert (Hx : hist xs = hist (firstn (Datatypes.S S) xs ++ skipn (Datatypes.S S) xs)) by (rewrite firstn_skipn; reflexivity).
+  rewrite Hx. unfold hist. rewrite hist_from_app, runave_run_app.
+  fold h1. fold (hist (firstn (Datatypes.S S) xs)). f_equal.
+  rewrite (runave_run_shift O L s it0 S Hs HS). cbn [Nat.add].
+  assert (Hl : length (firstn (Datatypes.S S) xs) = Datatypes.S S) by (apply firstn_length_le; lia).
+  rewrite Hl. f_equal.
+  assert (Hne : firstn (Datatypes.S S) xs <> []) by (intros H; rewrite H in Hl; discriminate).
+  unfold prev_after, h1, hist.
+  rewrite (prev_after_hist_from (firstn (Datatypes.S S) xs) 0 None Hne), Hl. f_equal. lia.
+Qed.
+
+(* a resumed job with a SHORTER window keeps the newest L'-1 values of the restored window: its state is the one a job
+   with window L' would have reached on the same history *)
+Section RunaveShorterWindow.
+  Context {T : Type} (O : NumOps T).
+  Variables (L L' s it0 : nat).
+  Hypothesis HL : (L' <= L)%nat.
+
+  Definition runave_resume (st : @rstate T) : @rstate T := mkRS (r_init st) (firstn (L' - 1) (r_hist st)).
+
+  Lemma firstn_firstn_le {A} (a b : nat) (l : list A) : (a <= b)%nat -> firstn a (firstn b l) = firstn a l.
+  Proof. intros H. rewrite firstn_firstn. f_equal. lia. Qed.
+
+  Lemma runave_final_truncates : forall h st st' prev,
+    r_init st' = r_init st -> r_hist st' = firstn (L' - 1) (r_hist st) ->
+    runave_final O L' s it0 st' prev h = runave_resume (runave_final O L s it0 st prev h).
+  Proof.
+    induction h as [|[t x] h IH]; intros st st' prev Hi Hh.
+    - cbn [runave_final]. unfold runave_resume. destruct st' as [i' h']. cbn [r_init r_hist] in *. subst. reflexivity.
+    - cbn [runave_final]. apply IH.
+      + unfold runave_step. rewrite Hi. destruct (negb (r_init st)); [reflexivity|].
+        destruct ((t mod s =? 0)%nat && after_prev prev t); cbn [fst r_init]; [reflexivity|exact Hi].
+      + unfold runave_step. rewrite Hi. destruct (negb (r_init st)); [destruct (L' - 1)%nat; reflexivity|].
+        destruct ((t mod s =? 0)%nat && after_prev prev t); cbn [fst r_hist]; [|exact Hh].
+        rewrite Hh, firstn_cons_firstn, firstn_firstn_le by lia. reflexivity.
+  Qed.
+
+  Lemma runave_resume_shorter : forall h,
+    runave_resume (runave_final O L s it0 (r0 (T:=T)) None h) = runave_final O L' s it0 (r0 (T:=T)) None h.
+  Proof.
+    intros h. symmetry. apply runave_final_truncates; [reflexivity|]. cbn [r0 r_hist]. destruct (L' - 1)%nat; reflexivity.
+  Qed.
+End RunaveShorterWindow.
